@@ -58,6 +58,7 @@ type Violation struct {
 	Detail  string            `json:"detail,omitempty"`
 	Model   map[string]string `json:"model"`
 	KnownID string            `json:"known_id,omitempty"`
+	Nondet  bool              `json:"native_run_not_deterministic,omitempty"` // the harness said vNoSample: natively schedule / map order / time decide
 	Path    []Dec             `json:"-"`
 }
 
@@ -593,7 +594,7 @@ func (ex *Explorer) reportFailing(label, kind, detail, neg string) {
 	s := ex.S
 	record := func(knownID string) {
 		m := ex.model()
-		v := Violation{Harness: s.Harness, Label: label, Kind: kind, Detail: detail, Model: m, KnownID: knownID, Path: append([]Dec{}, ex.taken...)}
+		v := Violation{Harness: s.Harness, Label: label, Kind: kind, Detail: detail, Model: m, KnownID: knownID, Nondet: ex.noSample, Path: append([]Dec{}, ex.taken...)}
 		s.mu.Lock()
 		if knownID == "" {
 			if !s.violSeen[label] {
